@@ -69,4 +69,4 @@ Lemma valid_files_load :
   (exists l g, load_Polygons (fix_env v_polygons) v_polygons = Loaded l g /\ load_Polygons (asis_env v_polygons) v_polygons = Loaded l g /\ length l = 1%nat /\ wf_polygons_b l = true).
 Proof. vm_compute. repeat split; repeat eexists; reflexivity. Qed.
 Lemma fix_env_fixed : forall f, flen f < 1000000 -> fixed_env (fix_env f) f (alloc_bound (flen f)).
-Proof. intros f H. unfold fixed_env, fix_env, alloc_bound. simpl. split; [reflexivity|split; [lia|lia]]. Qed.
+Proof. intros f H. unfold fixed_env, fix_env, alloc_bound. cbn [e_cfg e_fuel e_cap]. split; [reflexivity|split; [lia|lia]]. Qed.
